@@ -4,6 +4,7 @@ package main
 
 import (
 	"fmt"
+	"go/token"
 	"go/types"
 	"os"
 	"path/filepath"
@@ -42,6 +43,9 @@ type World struct {
 	RepoDir  string
 
 	seqType *types.Named
+	// package-level variables that are assigned only by package initialisers:
+	// their value is a constant of the program run
+	roGlobal map[string]bool // key: pkgpath.name
 }
 
 var pathPrefix = regexp.MustCompile(`([A-Za-z0-9_.\-]+/)+`)
@@ -116,6 +120,7 @@ func loadWorld(repo string, patterns []string, specDir string) (*World, error) {
 		return nil, err
 	}
 	w.CS = cs
+	w.computeReadOnlyGlobals()
 	// function index
 	for fn := range ssautil.AllFunctions(prog) {
 		if fn.Synthetic != "" && !strings.Contains(fn.Synthetic, "instance") {
@@ -162,6 +167,8 @@ func (w *World) resolveType(t *SType, from string) (types.Type, error) {
 			return nil, err
 		}
 		return types.NewSlice(e), nil
+	case "func":
+		return types.NewSignatureType(nil, nil, nil, nil, nil, false), nil
 	case "chan":
 		e, err := w.resolveType(t.Elem, from)
 		if err != nil {
@@ -284,4 +291,57 @@ func typeKey(t types.Type) string {
 		s = fmt.Sprintf("%s_%08x", s[:20], h)
 	}
 	return mangle(s)
+}
+
+func globalKey(pkg *types.Package, name string) string {
+	if pkg == nil {
+		return name
+	}
+	return pkg.Path() + "." + name
+}
+
+// computeReadOnlyGlobals: a first-party global is read-only if no function
+// other than a package initialiser stores to it or takes its address for
+// anything but loads and field/element reads.
+func (w *World) computeReadOnlyGlobals() {
+	w.roGlobal = map[string]bool{}
+	written := map[string]bool{}
+	for _, p := range w.SSAPkgs {
+		if p == nil || !strings.HasPrefix(p.Pkg.Path(), "github.com/saucelabs/forwarder") {
+			continue
+		}
+		for _, m := range p.Members {
+			if g, ok := m.(*ssa.Global); ok {
+				w.roGlobal[globalKey(g.Pkg.Pkg, g.Name())] = true
+			}
+		}
+	}
+	for fn := range ssautil.AllFunctions(w.Prog) {
+		if !w.firstParty(fn) || fn.Name() == "init" || strings.HasPrefix(fn.Name(), "init#") {
+			continue
+		}
+		for _, b := range fn.Blocks {
+			for _, in := range b.Instrs {
+				for _, op := range in.Operands(nil) {
+					g, ok := (*op).(*ssa.Global)
+					if !ok || g.Pkg == nil {
+						continue
+					}
+					safe := false
+					switch u := in.(type) {
+					case *ssa.UnOp:
+						safe = u.Op == token.MUL
+					case *ssa.DebugRef:
+						safe = true
+					}
+					if !safe {
+						written[globalKey(g.Pkg.Pkg, g.Name())] = true
+					}
+				}
+			}
+		}
+	}
+	for k := range written {
+		delete(w.roGlobal, k)
+	}
 }
